@@ -1300,6 +1300,26 @@ pub fn generate(out: &mut Out, tier: &str, seed: u64) {
             }
         }
     }
+    // 3b. exhaustive small scope: a fixed prefix, then every sequence of 2 (thorough: 3) operations from an
+    //     alphabet of 22 (all selector kinds, alignments, relative offsets, removals of every kind, a save)
+    let alpha = alphabet();
+    let depth = if thorough { 3 } else { 2 };
+    let total = alpha.len().pow(depth as u32);
+    for n in 0..total {
+        let mut idx = Vec::new();
+        let mut m = n;
+        for _ in 0..depth {
+            idx.push(m % alpha.len());
+            m /= alpha.len();
+        }
+        let mut ops = prefix_ops();
+        for i in idx.iter() {
+            ops.push(alpha[*i].clone());
+        }
+        let modes = l(vec![a((idx[0] % 3) as i64), a((idx[depth - 1] % 2) as i64)]);
+        out.count("request_exhaustive_history");
+        emit(&ctx, out, l(vec![a(0), l(ops), modes]));
+    }
     // 4. the final stores of random histories (all operations of the store model), half of them
     //    with stand-off members and saves in between
     let n_hist = if thorough { 40000 } else { 1200 };
@@ -1426,6 +1446,48 @@ fn gen_sub_history(rng: &mut Rng, late: bool) -> Sx {
     }
     let modes = if rng.chance(1, 2) { l(vec![a(0), a(0)]) } else { l(vec![a(rng.below(4) as i64), a(rng.below(3) as i64)]) };
     l(vec![a(0), l(ops), modes])
+}
+
+fn prefix_ops() -> Vec<Sx> {
+    let id = |t: i64| l(vec![a(0), a(t)]);
+    let cb = |n: i64| l(vec![a(0), a(n)]);
+    vec![
+        l(vec![a(0), a(0), a(7)]),
+        l(vec![a(3), a(0), l(vec![a(0), id(0), cb(1), cb(5)]), l(vec![l(vec![id(0), a(-1), id(0), l(vec![a(2), a(1)])])])]),
+        l(vec![a(3), a(-1), l(vec![a(0), id(0), cb(2), l(vec![a(1), a(-1)])]), l(vec![l(vec![id(0), id(1), id(1), l(vec![a(4), a(120)])])])]),
+    ]
+}
+fn alphabet() -> Vec<Sx> {
+    let id = |t: i64| l(vec![a(0), a(t)]);
+    let h = |x: i64| l(vec![a(1), a(x)]);
+    let cb = |n: i64| l(vec![a(0), a(n)]);
+    let ce = |z: i64| l(vec![a(1), a(z)]);
+    let nodata = || l(vec![]);
+    let d = |idt: i64, key: i64, v: i64| l(vec![id(0), if idt < 0 { a(-1) } else { id(idt) }, id(key), l(vec![a(2), a(v)])]);
+    vec![
+        l(vec![a(0), a(1), a(4)]),                                                   // a second resource
+        l(vec![a(1), a(1)]),                                                          // an empty dataset
+        l(vec![a(2), d(-1, 0, 2)]),                                                   // insert_data, existing key
+        l(vec![a(3), a(-1), l(vec![a(0), id(0), ce(-3), ce(0)]), l(vec![d(-1, 0, 1)])]), // text, end-aligned, existing data
+        l(vec![a(3), a(2), l(vec![a(0), h(0), cb(0), ce(-2)]), nodata()]),           // text by handle, mixed alignment
+        l(vec![a(3), a(-1), l(vec![a(1), h(1)]), nodata()]),                          // on the id-less annotation
+        l(vec![a(3), a(3), l(vec![a(2), id(0), cb(1), ce(0)]), nodata()]),            // relative to a0, begin/end
+        l(vec![a(3), a(-1), l(vec![a(2), h(1), ce(-2), cb(3)]), l(vec![d(4, 2, 3)])]), // relative to the id-less one, end/begin, new key
+        l(vec![a(3), a(-1), l(vec![a(3), id(0)]), nodata()]),                         // resource selector
+        l(vec![a(3), a(5), l(vec![a(4), id(0)]), nodata()]),                          // dataset selector
+        l(vec![a(3), a(-1), l(vec![a(5), id(0), id(0)]), nodata()]),                  // key selector
+        l(vec![a(3), a(-1), l(vec![a(6), id(0), h(0)]), nodata()]),                   // data selector, id-less data
+        l(vec![a(3), a(-1), l(vec![a(7), a(1), l(vec![a(0), id(0), cb(4), cb(5)]), l(vec![a(0), id(0), cb(0), cb(1)]), l(vec![a(0), id(0), cb(1), cb(2)])]), nodata()]), // multi, compressible
+        l(vec![a(3), a(6), l(vec![a(7), a(3), l(vec![a(1), h(1)]), l(vec![a(1), id(0)]), l(vec![a(6), id(0), id(1)])]), nodata()]), // directional
+        l(vec![a(4), id(0)]),                                                         // remove a0 (cascades)
+        l(vec![a(4), h(1)]),
+        l(vec![a(5), id(0), h(0), a(1)]),                                             // remove_data strict
+        l(vec![a(5), id(0), id(1), a(0)]),                                            // remove_data, not strict
+        l(vec![a(6), id(0), id(0), a(1)]),                                            // remove_key
+        l(vec![a(7), id(0)]),                                                         // remove_resource
+        l(vec![a(8), id(0)]),                                                         // remove_dataset
+        l(vec![a(9)]),                                                                // save
+    ]
 }
 
 const N_MODS: usize = 14;
